@@ -136,8 +136,8 @@ def concretize(case, rule):
         op = ops[k - 1]
         r = role.get(k)
         if r is None:
-            old_t = code_text(next(pool)) if op in ("K", "D") else None
-            new_t = old_t if op == "K" else (code_text(next(pool)) if op == "I" else None)
+            old_t = code_text(next(pool)) if op in ("K", "D", "N", "n") else None
+            new_t = old_t if op in ("K", "N", "n") else (code_text(next(pool)) if op == "I" else None)
             if op == "M":
                 raise vlib.ToolError("M on a code line")
         else:
@@ -149,21 +149,21 @@ def concretize(case, rule):
                 if op == "M":
                     old_t = "@" * 20 if mk == "full" else s_line(b["lay"], name, rule, mk, old=True)
                 else:
-                    old_t = new_t if op == "K" else None
+                    old_t = new_t if op in ("K", "N", "n") else None
             elif kind == "E":
                 mk = b["ke"] if op == "M" else None
                 new_t = e_line(b["lay"], mk, old=False)
                 if op == "M":
                     old_t = "@" * 20 if mk == "full" else e_line(b["lay"], mk, old=True)
                 else:
-                    old_t = new_t if op == "K" else None
+                    old_t = new_t if op in ("K", "N", "n") else None
             elif kind == "C2":
                 mk = b.get("kc") if op == "M" else None
                 new_t = c_line_mltag(rule, mk, old=False)
-                old_t = c_line_mltag(rule, mk, old=True) if op == "M" else (new_t if op == "K" else None)
+                old_t = c_line_mltag(rule, mk, old=True) if op == "M" else (new_t if op in ("K", "N", "n") else None)
             else:
                 new_t = C_LINE if kind == "C" else CP_LINE
-                old_t = new_t if op == "K" else None
+                old_t = new_t if op in ("K", "N", "n") else None
             if op == "D":
                 raise vlib.ToolError("D on a tag line")
         entries.append((op, old_t, new_t, r[0] if r else "code"))
@@ -171,10 +171,14 @@ def concretize(case, rule):
     # (the padding is longer than any script: a deletion recorded at its OLD line number -- deviation DV1 --
     # must not reach the far block, whose only purpose is to be untouched)
     tail = ["zzpad%d" % k for k in range(1, 25)] + ["// " + tag_text("zz", rule).replace('v="("', 'v="z"'), "zzbody", "// </block>"]
-    for t in tail:
-        entries.append(("K", t, t, "tail"))
-    old = [e[1] for e in entries if e[0] in ("K", "D", "M")]
-    new = [e[2] for e in entries if e[0] in ("K", "I", "M")]
+    # a terminator-only op (N: the old file ends without a line terminator, n: the new one) is about the file's
+    # last line: such scripts get no tail (and no far block)
+    term = "N" if "N" in ops else ("n" if "n" in ops else None)
+    if term is None:
+        for t in tail:
+            entries.append(("K", t, t, "tail"))
+    old = [e[1] for e in entries if e[0] in ("K", "D", "M", "N", "n")]
+    new = [e[2] for e in entries if e[0] in ("K", "I", "M", "N", "n")]
     # positional pairs of two different tag lines make the character diff unpredictable for the model
     unreliable = False
     k = 0
@@ -185,13 +189,24 @@ def concretize(case, rule):
         j = k
         while j < len(entries) and entries[j][0] != "K":
             j += 1
-        minus = [(x, e) for x, e in enumerate(entries[k:j], k) if e[0] in ("D", "M")]
-        plus = [(x, e) for x, e in enumerate(entries[k:j], k) if e[0] in ("I", "M")]
+        minus = [(x, e) for x, e in enumerate(entries[k:j], k) if e[0] in ("D", "M", "N", "n")]
+        plus = [(x, e) for x, e in enumerate(entries[k:j], k) if e[0] in ("I", "M", "N", "n")]
         for (xa, ea), (xb, eb) in zip(minus, plus):
             if xa != xb and ea[3] != "code" and eb[3] != "code" and ea[1] != "@" * 20:
                 unreliable = True
         k = j
-    return dict(old=old, new=new, entries=entries, unreliable=unreliable)
+    return dict(old=old, new=new, entries=entries, unreliable=unreliable, term=term)
+
+
+NONL = "\\ No newline at end of file"
+
+
+def old_text_of(conc):
+    return "\n".join(conc["old"]) + ("" if conc.get("term") == "N" else "\n")
+
+
+def new_text_of(conc):
+    return "\n".join(conc["new"]) + ("" if conc.get("term") == "n" else "\n")
 
 
 def synth_diff(entries, U, name="f.js", rename_from=None):
@@ -209,11 +224,15 @@ def synth_diff(entries, U, name="f.js", rename_from=None):
         while j < n and entries[j][0] != "K":
             j += 1
         for e in entries[k:j]:
-            if e[0] in ("D", "M"):
+            if e[0] in ("D", "M", "N", "n"):
                 typed.append(("-", e[1]))
+                if e[0] == "N":
+                    typed.append(("\\", NONL[1:]))
         for e in entries[k:j]:
-            if e[0] in ("I", "M"):
+            if e[0] in ("I", "M", "N", "n"):
                 typed.append(("+", e[2]))
+                if e[0] == "n":
+                    typed.append(("\\", NONL[1:]))
         k = j
     # group into hunks
     idx_changes = [x for x, t in enumerate(typed) if t[0] != " "]
@@ -268,7 +287,7 @@ def git_diff(old_text, new_text, U, name="f.js", extra=()):
 
 
 def hunk_body(diff):
-    return [l for l in diff.split("\n") if l[:1] in ("@", "+", "-", " ") and not l.startswith(("+++", "---"))]
+    return [l for l in diff.split("\n") if l[:1] in ("@", "+", "-", " ", "\\") and not l.startswith(("+++", "---"))]
 
 
 def violates(tri, flag):
@@ -322,7 +341,7 @@ def replay(chk, cases, what, U_of=lambda ci: (0, 1, 3)[ci % 3], cli_sample=0):
         conc = concretize(case, rule)
         U = U_of(ci)
         diff = synth_diff(conc["entries"], U, rename_from=("old_dir/was_f.js" if ci % 4 == 3 else None))
-        new_text = "\n".join(conc["new"]) + "\n"
+        new_text = new_text_of(conc)
         files = {"f.js": new_text}
         base = {"files": files, "diff": diff, "terminal": False}
         ids = {}
@@ -342,8 +361,8 @@ def replay(chk, cases, what, U_of=lambda ci: (0, 1, 3)[ci % 3], cli_sample=0):
         cli_cases = []
         for ci in pick:
             case, conc, diff, U, ids = meta[ci]
-            old_text = "\n".join(conc["old"]) + "\n"
-            new_text = "\n".join(conc["new"]) + "\n"
+            old_text = old_text_of(conc)
+            new_text = new_text_of(conc)
             gd = git_diff(old_text, new_text, U)
             if hunk_body(gd) != hunk_body(diff):
                 raise vlib.ToolError("diff synthesiser disagrees with git on case %d (U=%d):\n%s\n---\n%s" % (ci, U, gd, diff))
@@ -381,7 +400,7 @@ def replay(chk, cases, what, U_of=lambda ci: (0, 1, 3)[ci % 3], cli_sample=0):
                 a, b = rs[m], results[ids[m]]
                 if (a["outcome"], a["exit"], a["list"], _norm(a["report"])) != (b["outcome"], b["exit"], b["list"], _norm(b["report"])):
                     chk.violation("CLI (real git diff) and in-process (synthesised diff) disagree in %s mode" % m,
-                                  {"abstract": case, "concrete": {"files": {"f.js": "\n".join(conc["new"]) + "\n"},
+                                  {"abstract": case, "concrete": {"files": {"f.js": new_text_of(conc)},
                                                                   "diff": diff, "args": [] if m == "run" else ["list"],
                                                                   "terminal": False},
                                    "cli": {k: a.get(k) for k in ("outcome", "exit", "list", "report", "error")},
@@ -401,7 +420,7 @@ def _norm(report):
 
 def judge_case(chk, what, case, conc, diff, U, rs, via):
     nb = len(case["blocks"])
-    conc_case = {"files": {"f.js": "\n".join(conc["new"]) + "\n"}, "diff": diff, "args": ["list"], "terminal": False}
+    conc_case = {"files": {"f.js": new_text_of(conc)}, "diff": diff, "args": ["list"], "terminal": False}
     rl, rr = rs["list"], rs["run"]
     nontrivial = any(p["contract"]["content"] != "GRAY" or p["contract"]["select"] != "GRAY" for p in case["per"])
     chk.count(nontrivial=nontrivial)
@@ -485,7 +504,7 @@ def judge_case(chk, what, case, conc, diff, U, rs, via):
         chk.violation("%s: exit=%s with %d diagnostics" % (via, rr["exit"], len(diags)), {"abstract": case, "concrete": conc_case})
     # far block zz never reported in diff mode without globs
     zline = len(conc["new"]) - 2
-    if by_line.get(zline):
+    if conc.get("term") is None and by_line.get(zline):
         chk.violation("%s: untouched far block zz reported in diff mode" % via, {"abstract": case, "concrete": conc_case})
     if what == "C02" and rs.get("globmiss") is not None:
         # a path argument that matches nothing must not take the diff's own files out of scope
@@ -498,11 +517,11 @@ def judge_case(chk, what, case, conc, diff, U, rs, via):
     if what == "C02" and rs.get("glob") is not None:
         rg = rs["glob"]
         gd = (rg["report"] or {}).get("f.js") or []
-        want = len(case["blocks"]) + 1
+        want = len(case["blocks"]) + (1 if conc.get("term") is None else 0)
         if rg["outcome"] != "ok" or len([d for d in gd if d["code"] == code]) != want:
             chk.violation("%s: with a path argument every block of the file must be validated: %d of %d reported" % (
                 via, len(gd), want), {"abstract": case, "concrete": dict(conc_case, args=["f.js"])})
 
 
 def _new_no(ops, k):
-    return sum(1 for o in ops[:k] if o in ("K", "I", "M"))
+    return sum(1 for o in ops[:k] if o in ("K", "I", "M", "N", "n"))
